@@ -55,7 +55,7 @@ from rv.ref.crc import usb3_crc5
 TRACE = bool(os.environ.get("C39_TRACE"))
 
 PROPERTY = "C39"
-CASES = {"quick": 224, "thorough": 3200}
+CASES = {"quick": 48, "thorough": 640}
 RULE = ("case = 1-3 enable epochs on one PacketTransmitter; profile = (ack delay, credit delay, corruption probability for new and "
         "for retransmitted headers, mismatch/loss injections, source.ready profile, LRTY latency, queue burstiness); the partner is "
         "reactive, LBAD offsets 0-30 cycles after a header; non-trivial = >= 1 LBAD with >= 2 unacknowledged headers, >= 1 queue "
@@ -468,7 +468,7 @@ class Oracle:
 # ======================================================================================== case
 
 PROFILES = ["clean", "slow_ack", "starved", "retry", "retry", "retry_storm", "retry_storm", "hostile", "mixed", "mixed"]
-SESSIONS = {"quick": 10, "thorough": 10}
+SESSIONS = {"quick": 16, "thorough": 16}
 
 
 def draw_profile(rng):
@@ -525,7 +525,25 @@ def run_case(rng, tier, res):
     dut = top.dut
     n_sessions = SESSIONS[tier]
     max_cycles = n_sessions * 3 * (50 * 140 + 2200) + 1000
-    b = Bench(top, domain="ss", freq=125e6, max_cycles=max_cycles)
+    # Building the simulator takes ~14 s for this design because amaranth recomputes Operator.shape() recursively for the
+    # deep CRC expressions; Operator is immutable, so the result is memoised per instance while the simulator is built
+    # (pure speed-up, 14 s -> 4 s; C39_NO_SHAPE_CACHE=1 switches it off).
+    from amaranth.hdl import _ast
+    orig_shape = _ast.Operator.shape
+
+    def cached_shape(self):
+        try:
+            return self._c39_shape
+        except AttributeError:
+            self._c39_shape = sh = orig_shape(self)
+            return sh
+
+    if not os.environ.get("C39_NO_SHAPE_CACHE"):
+        _ast.Operator.shape = cached_shape
+    try:
+        b = Bench(top, domain="ss", freq=125e6, max_cycles=max_cycles)
+    finally:
+        _ast.Operator.shape = orig_shape
     q, qh = dut.queue, dut.queue.header
     snk, src, ds = dut.sink, dut.source, dut.data_sink
     b.watch(snk.valid, snk.data, snk.ctrl, src.valid, src.data, src.ctrl, src.ready, q.valid, q.ready, qh.dw0, qh.dw1, qh.dw2,
@@ -714,6 +732,15 @@ def run_case(rng, tier, res):
     b.add_monitor(monitor)
 
     # ------------------------------------------------------------------ drivers
+    last_set = {}
+
+    def setv(sig, val):
+        """Bench.set, skipped when the input already has that value (speed)"""
+        val = int(val)
+        if last_set.get(id(sig)) != val:
+            last_set[id(sig)] = val
+            b.set(sig, val)
+
     def sink_driver():
         pending = []          # words of the command being sent
         while True:
@@ -769,14 +796,14 @@ def run_case(rng, tier, res):
                 st["sink_busy"] = False
                 mode = P["sink_idle"] if P["sink_idle"] != "mixed" else ["invalid", "zeros", "noise"][(now // 61) % 3]
                 if mode == "invalid":
-                    val, data, ctrl = 0, rng.getrandbits(32), 0
+                    val, data, ctrl = 0, (0xF7FEFEFE if now & 64 else 0x12345678), (0xF if now & 64 else 0)
                 elif mode == "zeros":
                     val, data, ctrl = 1, 0, 0
                 else:
                     val, data, ctrl = rng.randrange(2), rng.getrandbits(32), 0
                     if rng.random() < 0.1:
                         data, ctrl = rng.choice([(SHP_WORD, 0xF), (SDP_WORD, 0xF), (word(0x3C, 0x3C, 0, 0), 0x3), (word(SLC, SLC, SLC, SLC), 0xF)])
-            b.set(snk.valid, val); b.set(snk.data, data); b.set(snk.ctrl, ctrl)
+            setv(snk.valid, val); setv(snk.data, data); setv(snk.ctrl, ctrl)
             yield
 
     def ready_driver():
@@ -793,7 +820,7 @@ def run_case(rng, tier, res):
                     level = not level
                     run = rng.randint(1, 12) if level else rng.randint(1, 5)
                 run -= 1
-            b.set(src.ready, level)
+            setv(src.ready, level)
             yield
 
     def make_header():
@@ -807,12 +834,12 @@ def run_case(rng, tier, res):
         return dw0, dw1, dw2
 
     def queue_driver():
-        b.set(q.valid, 0)
+        setv(q.valid, 0)
         offered = None
         while True:
             if st["in_reset"]:
                 offered = None
-                b.set(q.valid, 0)
+                setv(q.valid, 0)
                 yield
                 continue
             if offered is not None and b.get(q.valid) and b.get(q.ready):
@@ -822,21 +849,21 @@ def run_case(rng, tier, res):
                 if st["offering"] and st["offered"] < cur["P"]["target"] and rng.random() < cur["P"]["burst"]:
                     offered = make_header()
                     res.sig(offered)
-                    b.set(q.valid, 1)
-                    b.set(qh.dw0, offered[0]); b.set(qh.dw1, offered[1]); b.set(qh.dw2, offered[2])
+                    setv(q.valid, 1)
+                    setv(qh.dw0, offered[0]); setv(qh.dw1, offered[1]); setv(qh.dw2, offered[2])
                     # junk in the link-layer fields: the transmitter assigns them
-                    b.set(qh.sequence_number, rng.randrange(8)); b.set(qh.crc16, rng.getrandbits(16)); b.set(qh.crc5, rng.getrandbits(5))
+                    setv(qh.sequence_number, rng.randrange(8)); setv(qh.crc16, rng.getrandbits(16)); setv(qh.crc5, rng.getrandbits(5))
                 else:
-                    b.set(q.valid, 0)
+                    setv(q.valid, 0)
                     if rng.random() < 0.3:
-                        b.set(qh.dw0, rng.getrandbits(32)); b.set(qh.dw2, rng.getrandbits(32))
+                        setv(qh.dw0, rng.getrandbits(32)); setv(qh.dw2, rng.getrandbits(32))
             yield
 
     def data_driver():
         n = 0
         left = rng.randint(1, 6)
         zlp = 0
-        b.set(ds.valid, 0xF); b.set(ds.data, 0); b.set(ds.last, left == 1)
+        setv(ds.valid, 0xF); setv(ds.data, 0); setv(ds.last, left == 1)
         while True:
             if b.get(ds.ready) and b.get(ds.valid):
                 n += 1
@@ -847,32 +874,32 @@ def run_case(rng, tier, res):
                         zlp = rng.randint(20, 60)
             if zlp > 0:
                 zlp -= 1
-                b.set(ds.valid, 0)
+                setv(ds.valid, 0)
             else:
                 last = left == 1
-                b.set(ds.valid, rng.choice([0x1, 0x3, 0x7, 0xF]) if last else 0xF)
-                b.set(ds.last, last)
-                b.set(ds.data, (0xD0000000 + n) & 0xFFFFFFFF)
+                setv(ds.valid, rng.choice([0x1, 0x3, 0x7, 0xF]) if last else 0xF)
+                setv(ds.last, last)
+                setv(ds.data, (0xD0000000 + n) & 0xFFFFFFFF)
             yield
 
     def lrty_driver():
-        b.set(dut.lrty_pending, 0)
+        setv(dut.lrty_pending, 0)
         while True:
             if st["in_reset"]:
-                b.set(dut.lrty_pending, 0)
+                setv(dut.lrty_pending, 0)
                 st["lrty_left"] = 0
             elif b.get(dut.retry_required):
                 st["lrty_left"] = rng.randint(*cur["P"]["lrty"])
-                b.set(dut.lrty_pending, 1)
+                setv(dut.lrty_pending, 1)
             elif st["lrty_left"] > 0:
                 st["lrty_left"] -= 1
                 if st["lrty_left"] == 0:
-                    b.set(dut.lrty_pending, 0)
+                    setv(dut.lrty_pending, 0)
                     st["lrty_fell"] = b.cycle
             yield
 
     def set_enable(val):
-        b.set(dut.enable, val)
+        setv(dut.enable, val)
         st["enable"] = val
         trace("ENABLE", val)
         # the DUT sees the new value from the next edge on: the epoch starts / ends there
@@ -893,11 +920,11 @@ def run_case(rng, tier, res):
             res.desc["sessions"].append(P)
         # hard reset: every register of the transmitter back to its initial value
         new_state()
-        b.set(dut.enable, 0)
-        b.set(top.rst, 1)
+        setv(dut.enable, 0)
+        setv(top.rst, 1)
         yield
         yield
-        b.set(top.rst, 0)
+        setv(top.rst, 0)
         yield
         orc = cur["orc"] = Oracle(res, reported, "session %d (%s) " % (number, P["profile"]))
         partner = cur["partner"] = Partner()
